@@ -371,6 +371,17 @@ Definition chk (v : value) (leaves : list (list string * value)) : bool :=
                                   "flow_matching", "xp", "flow_backend", "flow_kwargs", "eps", "dtype"):
                             if not same_value(c0.get(k), c1.get(k)):
                                 ctx.violation(f"config-rebuild:{k}", f"rebuilt instance has {k}={c1.get(k)!r}, the writer had {c0.get(k)!r}", case)
+                        # the settings themselves, not only their printed form (config_dict is the writer, it cannot be the only observer)
+                        for k in ("dims", "parameters", "periodic_parameters", "prior_bounds", "bounded_to_unbounded", "bounded_transform",
+                                  "flow_matching", "flow_backend", "flow_kwargs", "eps"):
+                            if not same_value(getattr(a, k), getattr(b, k)):
+                                ctx.violation(f"config-rebuild-attr:{k}", f"rebuilt instance has .{k}={getattr(b, k)!r}, the writer had {getattr(a, k)!r}", case)
+                        if a.xp is not b.xp and getattr(a.xp, "__name__", a.xp) != getattr(b.xp, "__name__", b.xp):
+                            ctx.violation("config-rebuild-attr:xp", f"rebuilt instance has namespace {b.xp!r}, the writer had {a.xp!r}", case)
+                        da = None if a.dtype is None else nsutil.dtype_name(a.dtype)
+                        db = None if b.dtype is None else nsutil.dtype_name(b.dtype)
+                        if da != db:
+                            ctx.violation("config-rebuild-attr:dtype", f"rebuilt instance has precision {db!r}, the writer had {da!r}", case)
                     except Exception as e:
                         ctx.violation(f"config-rebuild-raises:{type(e).__name__}", f"resume_from_file raised {e!r}", case)
     finally:
